@@ -402,6 +402,7 @@ pub fn run_c09(ctx: &mut Ctx) {
         // the implementation, keeping the bytes
         let filec = file.clone();
         let expc = exp.clone();
+        let bits_pp = samples(a.color) * a.depth as usize;
         let res = guarded(move || -> Vec<(String, String)> {
             let mut problems = vec![];
             let dec = png::Decoder::new(std::io::Cursor::new(filec));
@@ -436,6 +437,19 @@ pub fn run_c09(ctx: &mut Ctx) {
                             (None, Some(_)) | (Some(_), None) => problems.push(("frame-control".into(), format!("frame {}: frame_control presence differs", k))),
                         }
                         let n = oi.buffer_size().min(buf.len());
+                        // padding bits at the end of a row are not pixels: the interlaced path leaves them as the buffer had them
+                        let used_bits = e.w as usize * (line * 8 / ((e.w as usize * bits_pp + 7) / 8 * 8 / bits_pp.max(1)).max(1)).min(bits_pp.max(1));
+                        let _ = used_bits;
+                        if line > 0 && (e.w as usize * bits_pp) % 8 != 0 {
+                            let keep = ((e.w as usize * bits_pp) % 8) as u32;
+                            let mask = !(0xFFu8 >> keep);
+                            for y in 0..e.h as usize {
+                                let at = y * line + line - 1;
+                                if at < n {
+                                    buf[at] = (buf[at] & mask) | (e.pixels[at] & !mask);
+                                }
+                            }
+                        }
                         if buf[..n] != e.pixels[..] {
                             let at = buf[..n].iter().zip(&e.pixels).position(|(a, b)| a != b).unwrap_or(0);
                             let sub = e.w as usize * 1 < 0; let _ = sub;
